@@ -53,8 +53,16 @@ def cases(draw):
   n = draw(st.integers(1, 6))
   steps = []
   for _ in range(n):
-    k = draw(st.integers(0, 9))
-    if k <= 7:
+    k = draw(st.integers(0, 10))
+    if k == 10:
+      # the advanced-usage form for operators without weights: activations only,
+      # checks skipped (there is no policy entry without a weight config)
+      r = R.rule(draw(st.sampled_from(c11.H_REGEX)),
+                 draw(st.sampled_from(['*', 'ADD', 'MUL', 'TANH', 'INPUT', 'OUTPUT', 'SOFTMAX'])),
+                 R.MINMAX, R.cfg(act=draw(st.sampled_from([[8, False], [8, True], [16, True]])),
+                                 w=None, cp='INTEGER', skip=True))
+      steps.append({'do': 'add', 'rule': r, 'enum': draw(st.booleans()), 'default_cfg_none': False})
+    elif k <= 7:
       r = draw(c11.rule_specs())
       if draw(st.integers(0, 9)) == 0:
         r = R.rule(r['regex'], '*', r['algo'], dict(R.DEFAULT))
@@ -65,12 +73,6 @@ def cases(draw):
         if stars and r['op'] != '*' and draw(st.booleans()):
           # an opt-out for one op that re-uses the regex and config of the '*' rule
           r = R.rule(stars[-1]['regex'], r['op'], R.NOQ, dict(stars[-1]['cfg']))
-      if draw(st.integers(0, 7)) == 0:
-        # the advanced-usage form for operators without weights: activations only,
-        # checks skipped (there is no policy entry without a weight config)
-        r = R.rule(r['regex'], draw(st.sampled_from(['*', 'ADD', 'MUL', 'TANH', 'INPUT', 'OUTPUT', 'SOFTMAX'])),
-                   R.MINMAX, R.cfg(act=draw(st.sampled_from([[8, False], [8, True], [16, True]])),
-                                   w=None, cp='INTEGER', skip=True))
       if r['algo'] == R.MINMAX and draw(st.integers(0, 7)) == 0:
         r = dict(r, algo=USER_ALGO)
       steps.append({'do': 'add', 'rule': r, 'enum': draw(st.booleans()),
